@@ -9,6 +9,7 @@ TRUST = ('trusted: library models (num-bigint as wide bit-vectors, Vec/slice/ite
 TECH = 'symbolic execution of rustc MIR (regenerated from /repo each run) + SMT (z3), bounded; counterexamples replayed natively'
 
 CLAIMS = {
+ 'C02': ('mechanism lemma only: the CLVM-level rewrites of the modern optimiser (null_optimization, remove_double_apply with its three rules, brief_path_selection), chained exactly as Strategy23::post_codegen_output_optimize chains them, are executed from MIR on every program tree of <=4 (thorough 5) leaves over {nil, 1..9} and the meaning before/after is judged by clvmr run_program executed from clvmr\'s own MIR (one-directional: value preserved whenever the unoptimised program returns one); brief_path_selection additionally on f/r chains of length up to 8 (40) over symbolic paths. Partial: CSE, de-inlining, constant folding by execution, nil-env mode, cl22 partial evaluation, whole compilations are outside', 'DESIGN.md §4 C02'),
  'C03': ('mechanism lemma only: the classic compiler\'s symbol_table_for_tree (with inline::is_at_capture, NodePath::{new,add,first,rest,as_path}, compose_paths, casts) is executed from MIR on every parameter tree of <=3 (thorough 5) leaves with optional (@ name pattern) captures and on parameter lists up to 64 (70) long, for root paths 1 and 3 (and 2); every emitted (name, path) is resolved by clvmr traverse_path (its own MIR) and z3/concrete evaluation decides that it selects that name\'s position and is canonical. Partial: the CLVM-hosted stage-2 compiler, macros, inlining and the classic==cl21 sentence are outside', 'DESIGN.md §4 C03'),
  'C01': ('mechanism lemma only: codegen::create_name_lookup_ and compiler::is_at_capture are executed from MIR on every environment shape of <=4 (thorough 6) leaves, each optionally with an (@ name pattern) capture at any position, and on parameter-list spines up to depth 70 (100), with symbolic names; the path returned is resolved by clvmr traverse_path (its own MIR) on a value of that shape and z3 decides that it reaches a slot bound to the name, that an error means the name is unbound, and that no overflow/panic edge is reachable. Partial: desugaring, inlining, lambdas, constants, macros and dialects are outside; counterexamples are replayed by compiling and running (mod ARGS NAME)', 'DESIGN.md §4 C01'),
  'C18': ('resolution clause only: DefaultCompilerOpts::read_new_file is executed from MIR with 1..3 (thorough 4) search directories and a symbolic existence bit per directory (fs::read and PathBuf are stubs); z3 decides that the returned name and contents are those of the first directory that has the file, that an error is returned only if none has it, and that pseudo-files (*macros*, dialect names) resolve to the built-in text. Partial: that gather_dependencies visits every include the compilation visits is not decided', 'DESIGN.md §4 C18'),
